@@ -160,6 +160,24 @@ func spellPhase(r *ev.Run, workers int, merge func(*stats)) {
 								rn.exec(cl, &kase{World: w, Origin: layout, Req: request{API: apiBuilder, Target: t, Leader: p.Store}, Family: famSpelling}, origin, info)
 							}
 						}
+						// expected roles: one requested voter is to be a follower (the leader has to end elsewhere
+						// even when the other candidates are pending or down peers)
+						for _, f := range t {
+							if f.Role != "v" {
+								continue
+							}
+							var roles []roleReq
+							for _, p := range t {
+								rr := roleReq{Store: p.Store, Role: "voter"}
+								if p.Role == "l" {
+									rr.Role = "learner"
+								} else if p.Store == f.Store {
+									rr.Role = "follower"
+								}
+								roles = append(roles, rr)
+							}
+							rn.exec(cl, &kase{World: w, Origin: layout, Req: request{API: apiMoveRegion, Roles: roles}, Family: famSpelling}, origin, info)
+						}
 						rn.st.count("spelling_unhealthy_cases", 1)
 					}
 					for s := 1; s <= S; s++ {
